@@ -41,6 +41,7 @@ class Neg:
         self.IN = None
         self.n_sources = 0
         self._src_sites = set()
+        self._all_keys = set()
 
     # ---- running -----------------------------------------------------------
     def run(self):
@@ -94,6 +95,60 @@ class Neg:
             return ("t", p) if p else None
         return None
 
+    def _pointee_keys(self, arg):
+        """State keys of the local objects reachable from a pointer argument:
+        &local, a local array, and - for &struct - the local arrays whose
+        address was stored into one of its fields (bs.triplet = triplets)."""
+        f = self.f
+        j = ex.skip(f, arg)
+        e = f.exprs[j]
+        while e["k"] == "cast":
+            j = ex.skip(f, e["c"][0])
+            e = f.exprs[j]
+        base = None
+        if e["k"] == "un" and e["op"] == "&":
+            base = ex.skip(f, e["c"][0])
+        elif "arr" in e:
+            base = j
+        if base is None or summaries.is_nonlocal_lvalue(f, base):
+            return []
+        r = ex.root(f, base)
+        if r is None:
+            return []
+        name = f.exprs[r]["name"]
+        keys = [("t", name), ("t", "%s[]" % name)]
+        c = f._cache.get("neg_ptr_fields")
+        if c is None:
+            c = {}
+            for bid, i in flow.all_events(f):
+                for lhs, var, op, rhs in flow.stores(f, i):
+                    if lhs is None or rhs is None or op != "=":
+                        continue
+                    le = f.exprs[ex.skip(f, lhs)]
+                    if le["k"] != "mem" or summaries.is_nonlocal_lvalue(f, lhs):
+                        continue
+                    lr = ex.root(f, lhs)
+                    re_ = f.exprs[ex.skip(f, rhs)]
+                    while re_["k"] == "cast":
+                        re_ = f.exprs[ex.skip(f, re_["c"][0])]
+                    tgt = None
+                    if re_["k"] == "ref" and "arr" in re_ and re_.get("dk") == "local":
+                        tgt = re_["name"]
+                    elif re_["k"] == "un" and re_["op"] == "&":
+                        rr = ex.root(f, re_["c"][0])
+                        if rr is not None and f.exprs[rr].get("dk") == "local":
+                            tgt = f.exprs[rr]["name"]
+                    if lr is not None and tgt is not None:
+                        c.setdefault(f.exprs[lr]["name"], set()).add(tgt)
+            f._cache["neg_ptr_fields"] = c
+        for tgt in c.get(name, ()):
+            keys += [("t", tgt), ("t", "%s[]" % tgt)]
+        # fields of the local struct itself
+        for k in list(self._all_keys):
+            if k[1].startswith(name + "."):
+                keys.append(k)
+        return keys
+
     def is_weak(self, key):
         return key[1].endswith("[]")
 
@@ -117,6 +172,9 @@ class Neg:
                 t = frozenset()
                 for a in e.get("c", []):
                     t |= self.taint(st, a, depth + 1)
+                    # a pointer to a local object: what it (transitively) points to
+                    for key in self._pointee_keys(a):
+                        t |= frozenset((s, p) for s, p in st.get(key, frozenset()) if s not in st["ok"])
                 if n == "__builtin_expect":
                     return self.taint(st, e["c"][0], depth + 1)
                 return frozenset((s, False) for s, _ in t)
@@ -232,6 +290,7 @@ class Neg:
         return st
 
     def _set(self, st, key, t, strong):
+        self._all_keys.add(key)
         out = dict(st)
         if strong:
             if t:
@@ -467,6 +526,10 @@ def _dead_path(f, bid, eid, name, did):
             return True
         for s, _ in f.edges(b):
             if s == f.exit:
+                # giving up (return FALSE / 0) without looking is fine
+                ret = [n for n in blk.elems if f.exprs[n]["k"] == "ret"]
+                if ret and f.exprs[ret[-1]].get("c") and ex.const(f, f.exprs[ret[-1]]["c"][0]) == 0:
+                    continue
                 return True
             if s not in seen:
                 seen.add(s)
